@@ -155,14 +155,35 @@ def register(reg):
     SUB = "forall(range(0, len(result)), lambda j: exists(range(0, len(solutions)), lambda i: result[j] is solutions[i]))"
     reg.contract(
         F, "SyntheticRuleMatcher.remove_overlapping_solutions",
-        params={"solutions": List(PATH)}, returns=List(PATH), fresh_result=True, assumed=True,
-        ensures=[SUB], note="returns a sub-list of its argument (set/frozenset code, outside the subset; checked at run time)",
+        params={"solutions": List(PATH)}, returns=List(PATH), fresh_result=True,
+        # the de-duplication keeps a sub-list of the completions, in their order (the frozenset keys are read as value sets)
+        ensures=["forall(range(0, len(result)), lambda j: in_list(result[j], solutions))", SUB, "len(result) <= len(solutions)"],
+        loops={0: {"inv": [
+            "fresh(unique_solutions) and len(unique_solutions) <= _i",
+            "forall(range(0, len(unique_solutions)), lambda j: exists(range(0, _i), lambda i: unique_solutions[j] is solutions[i]))",
+        ]}},
+        modifies=[],
+        locals_types={"unique_solutions": List(PATH), "seen": SetT(SetT(Tuple(STR, INT)))},
         props=["C08"])
     reg.contract(
+        "synrbl/SynUtils/data_utils.py", "find_shortest_sublists",
+        params={"solution": List(PATH)}, returns=List(PATH), fresh_result=True,
+        ensures=[
+            "forall(range(0, len(result)), lambda j: in_list(result[j], solution))",
+            "forall(range(0, len(result)), lambda j: exists(range(0, len(solution)), lambda i: result[j] is solution[i]))",
+            # exactly the entries of minimal length are kept
+            "forall(range(0, len(result)), lambda j: forall(range(0, len(solution)), lambda i: len(result[j]) <= len(solution[i])))",
+            "forall(range(0, len(solution)), lambda i: implies(forall(range(0, len(solution)), lambda i2: len(solution[i]) <= len(solution[i2])), "
+            "exists(range(0, len(result)), lambda j: result[j] is solution[i])))",
+        ],
+        modifies=[], props=["C08"])
+    reg.contract(
         F, "SyntheticRuleMatcher.rank_solutions",
-        params={"solutions": List(PATH), "ranking": VAL}, returns=List(PATH), assumed=True,
-        ensures=[SUB], note="returns a (re-ordered) sub-list of its argument (sorted with key functions; checked at run time)",
-        props=["C08"])
+        params={"solutions": List(PATH), "ranking": VAL}, returns=List(PATH),
+        # every ranking mode returns a re-ordered sub-list of the completions it was given (sorted() is read as "same members")
+        ensures=["forall(range(0, len(result)), lambda j: in_list(result[j], solutions))", SUB],
+        note="sorted(): same members, order unspecified; the key functions (len sums, calculate_net_charge) are not evaluated - assumed not to raise",
+        modifies=[], props=["C08"])
     reg.contract(
         F, "SyntheticRuleMatcher.match",
         params={"self": Obj("SyntheticRuleMatcher")}, returns=List(PATH),
